@@ -90,7 +90,7 @@ def eligible(items):
         n = d['n']
         if n[0] == 'M':
             return False
-        if n[0] == 'E' and (n[1] in ('equation', 'align*', 'verbatim', 'lstlisting')):
+        if n[0] == 'E' and (n[1] in ('equation', 'align*', 'verbatim', 'lstlisting', 'Verbatim', 'listing', 'verbatimtab')):
             return False
         if n[0] == 'C' and n[1] == 'item':
             return False
